@@ -8,7 +8,10 @@ call   := ["unary", {"size": int, "fill": int, "exclog": bool, "raise": bool, "r
               size/fill: the bytes result; req = k: a peer that offers the request batch (pad of k bytes) to shm
         | ["stream", {"in": shape | None, "out": shape, "steps": [turn...], "after": "close" | "cancel"}]
         | ["release", i]                         the caller releases the i-th batch it still holds (newest first)
-turn   := {"in": spec | None, "bad": bool, "exclog": bool, "out": spec | "raise" | "finish", "rel": bool}
+turn   := {"in": spec | None, "bad": bool, "exclog": bool, "cb": bool, "out": spec | "raise" | "finish", "rel": bool}
+          exclog: process() logs at EXCEPTION level before its batch; cb: it logs at INFO level a message on which the
+          client's on_log callback raises (also accepted in a unary call) -- both make the client abandon the read
+          before the data batch, which the following close()/cancel() (unary: the drain) then meets
           bad: the input is sent under a wrong field name (the server's _coerce_input_batch refuses it)
 
 Per call the driver reports: deliveries [(code, content key)] (0 request at the server, 1 stream input at the server's
@@ -171,6 +174,8 @@ def _turn(state: Any, batch_in: AnnotatedBatch | None, out: OutputCollector, ctx
     t = steps[i]
     if t.get("exclog"):
         ctx.client_log(Level.EXCEPTION, f"exclog-{i}")
+    if t.get("cb"):
+        ctx.client_log(Level.INFO, f"{CB_MARK}-{i}")
     o = t["out"]
     if o == "raise":
         raise ValueError(f"turn {i} raises")
@@ -218,6 +223,8 @@ class C29Impl:
         SERVER_OBS.append([0, req_key(len(pad), pad == bytes([REQ_FILL]) * len(pad))])
         if prog.get("exclog"):
             ctx.client_log(Level.EXCEPTION, "exclog-unary")
+        if prog.get("cb"):
+            ctx.client_log(Level.INFO, f"{CB_MARK}-unary")
         if prog.get("raise"):
             raise ValueError("unary raises")
         return bytes([prog["fill"] % 256]) * int(prog["size"])
@@ -232,6 +239,17 @@ class C29Impl:
 
 
 REQ_FILL = 7
+CB_MARK = "cbraise"
+
+
+class CallbackBoom(Exception):
+    """Raised by the client's on_log callback for a log message that starts with CB_MARK."""
+
+
+def on_log(msg: Any) -> None:
+    if str(msg.message).startswith(CB_MARK):
+        raise CallbackBoom(msg.message)
+
 
 
 def req_key(n: int, intact: bool = True) -> str:
@@ -318,7 +336,7 @@ def _raw_unary(ct: Any, seg: Any, pid: int, pad: bytes) -> Any:
     with new_ipc_stream(ct.writer, info.params_schema) as w:
         w.write_batch(batch, custom_metadata=cm)
     reader = ValidatedReader(ipc.open_stream(ct.reader), IpcValidation.FULL)
-    return _read_unary_response(reader, info, None, None, shm=seg)
+    return _read_unary_response(reader, info, on_log, None, shm=seg)
 
 
 def run_history(history: list[Any], *, use_shm: bool, seg_size: int = 1 << 20, thresh: int = 1, timeout: float = 30.0) -> dict[str, Any]:
@@ -351,7 +369,7 @@ def run_history(history: list[Any], *, use_shm: bool, seg_size: int = 1 << 20, t
     _PID += len(history) + 1
 
     def body() -> None:
-        with RpcConnection(C29Svc, ct) as px:
+        with RpcConnection(C29Svc, ct, on_log=on_log) as px:
             for ci, call in enumerate(history):
                 kind, arg = call[0], call[1]
                 pid = base_pid + ci
@@ -405,6 +423,8 @@ def run_history(history: list[Any], *, use_shm: bool, seg_size: int = 1 << 20, t
                         raise ValueError(kind)
                 except RpcError as e:
                     trace.append(["error", e.error_type, str(e.error_message)[:120]])
+                except CallbackBoom as e:
+                    trace.append(["callback_raised", str(e)])
                 # batches still held must still read as they did on arrival
                 for h in held:
                     if raw_digest(h.ab.batch) != h.digest:
